@@ -17,7 +17,10 @@ for P in "$@"; do
   rc=$?
   n=0
   for t in $(grep '^VIOLATION' "$D/out.$P" | sed 's/.*replay=//'); do
-    h=$(basename "$t" | sed 's/__.*//')
+    case "$t" in
+      */regress/*) h=$(basename "$(dirname "$t")") ;;   # a saved regression tape failing again
+      *) h=$(basename "$t" | sed 's/__.*//') ;;
+    esac
     mkdir -p /verif/regress/$P/$h
     cp "$t" /verif/regress/$P/$h/fix_${C}_$n.tape
     n=$((n+1)); [ $n -ge 2 ] && break
